@@ -1,4 +1,5 @@
 """C02 — algorithm allow-list, key-family matching and key selection policy; crit; HS/asymmetric confusion guard."""
+import base64
 import datetime
 import itertools
 import json
@@ -82,7 +83,47 @@ def cases(rng, tier):
         head = out[-400:]
         out = rng.sample(out[:-400], 1400) + head
     out += confusion_cases()
+    out += extra_cases()
     return out
+
+
+def extra_cases():
+    """oracle-only cases: kid values of another JSON type / text, and the allow-list applied to encrypted tokens"""
+    out = []
+    for form in ("keySet", "dictSet"):
+        for kids, hkid in (([None, "k2"], "None"), (["1", "2"], 1), (["1", "2"], "1"), ([None, "k2"], "k2"), (["True", "k2"], True), (["k1", "k2"], ["k1"]), (["k1"], "K1"),
+                           (["k1", "k2"], "k1 "), (["", "k2"], None)):
+            for signer in range(len(kids)):
+                out.append({"op": "kidtype", "form": form, "kids": kids, "hkid": hkid, "signer": signer})
+    jwe_tokens = {"dir": ("dir", "A128CBC-HS256"), "A256KW": ("A256KW", "A128GCM")}
+    for name, (alg, enc) in jwe_tokens.items():
+        for allow in (["HS256"], ["HS256", "HS512"], [], ["RS256", "ES256"], "default", [alg], [enc], [alg, enc], ["HS256", alg, enc], ["A128KW", "A256GCM"]):
+            out.append({"op": "jwe_allow", "alg": alg, "enc": enc, "allowed": allow})
+    return out
+
+
+def impl_extra(c):
+    from authlib.jose import JsonWebToken, JsonWebEncryption, jwt as default_jwt
+    sec = b"0123456789abcdef0123456789abcdef"
+    if c["op"] == "kidtype":
+        ks = [{"kty": "oct", "k": base64.urlsafe_b64encode(bytes([65 + i]) * 32).rstrip(b"=").decode(), **({"kid": kid} if kid is not None else {})} for i, kid in enumerate(c["kids"])]
+        # signed with one member of the set; the header carries the kid under test
+        signer = ks[c["signer"]]
+        tok = JsonWebSignature().serialize_compact({"alg": "HS256", "kid": c["hkid"]} if c["hkid"] is not None else {"alg": "HS256"}, b'{"sub":"x"}',
+                                                   OctKey.import_key(signer))
+        key = KeySet([OctKey.import_key(k) for k in ks]) if c["form"] == "keySet" else {"keys": ks}
+        try:
+            JsonWebToken(["HS256"]).decode(tok, key)
+            return {"accepted": True}
+        except Exception as e:
+            return {"accepted": False, "error": type(e).__name__}
+    tok = JsonWebEncryption().serialize_compact({"alg": c["alg"], "enc": c["enc"]}, b'{"sub":"mallory"}', sec)
+    inst = default_jwt if c["allowed"] == "default" else JsonWebToken(c["allowed"])
+    try:
+        inst.decode(tok, sec)
+        return {"accepted": True}
+    except Exception as e:
+        return {"accepted": False, "error": type(e).__name__}
 
 
 _TEXT = None
@@ -188,6 +229,8 @@ ERR = [(je.MissingAlgorithmError, "missing_algorithm"), (je.UnsupportedAlgorithm
 def impl(c):
     if c["op"] == "confusion":
         return impl_confusion(c)
+    if c["op"] in ("kidtype", "jwe_allow"):
+        return impl_extra(c)
     tok, header = make_token(c)
     arg = c["arg"]
     algs = c["allowed"]
@@ -254,6 +297,8 @@ def impl_confusion(c):
 
 
 def model_line(c):
+    if c["op"] in ("kidtype", "jwe_allow"):
+        return None
     if c["op"] == "confusion":
         return {"op": "oct_import", "raw": c["raw"]}
     tok, header = make_token(c)
@@ -322,6 +367,23 @@ def oracle(c, out):
             v.append((f"text the library loads as an asymmetric {out['_loads']} key is accepted as an HMAC secret ({c['label']}); forged HS256 token verifies: {out['_forged']}",
                       {"kind": "hmac-confusion", "form": c["label"].split("+")[1] if "+" in c["label"] else c["label"]}))
         return v
+    if c["op"] == "kidtype":
+        # the designated key is the member whose kid EQUALS the header's kid (same JSON type and text); the token is signed with the last member
+        sk = c["kids"][c["signer"]]
+        if c["hkid"] is None:
+            ok_expected = len(c["kids"]) == 1
+        else:
+            ok_expected = sk is not None and sk == c["hkid"] and type(sk) is type(c["hkid"])
+        if out["accepted"] and not ok_expected:
+            v.append((f"header kid {c['hkid']!r} selected a key of the set with kids {c['kids']} ({c['form']}): no member has that kid", {"kind": "kid-type-confusion", "form": c["form"]}))
+        return v
+    if c["op"] == "jwe_allow":
+        listed = c["allowed"] != "default" and c["alg"] in c["allowed"] and c["enc"] in c["allowed"]
+        if out["accepted"] and not listed:
+            v.append((f"encrypted token with alg {c['alg']} / enc {c['enc']} accepted by an instance whose allow-list is {c['allowed']}", {"kind": "allow-list-jwe"}))
+        if not out["accepted"] and listed:
+            v.append((f"encrypted token with listed alg {c['alg']} / enc {c['enc']} refused ({out.get('error')})", {"kind": "allow-list-jwe-refused"}))
+        return v
     if "raised" in out:
         return [(f"unexpected exception {out['raised']}", {"kind": "crash", "exc": out["raised"].split(":")[0]})]
     exp = expected(c)
@@ -337,6 +399,8 @@ def oracle(c, out):
 
 
 def classify(c, out):
+    if c["op"] in ("kidtype", "jwe_allow"):
+        return c["op"] + "/" + ("accepted" if out["accepted"] else "refused")
     if c["op"] == "confusion":
         return "confusion/" + ("accepted" if out["accepted"] else "refused") + ("/loads" if out["_loads"] else "")
     return "policy/" + c["form"] + "/" + ("ok" if "ok" in out else out.get("error", "raised"))
